@@ -68,7 +68,8 @@ for facet, gmp, n, wd, p in procs:
         else:
             print("EXTRA-INFRA race run %s GOMAXPROCS=%d exited %d: %s" % (facet, gmp, p.returncode, o[-400:].replace("\n", " | ")))
     else:
-        m = re.search(r"OK, passed (\d+) tests", o)
-        total += int(m.group(1)) if m else 0
+        import glob, json
+        for sf in glob.glob(os.path.join(wd, "*.stats.json")):
+            total += json.load(open(sf)).get("evaluations", 0)
 print("EXTRA-EVAL %d 0" % total)
 print("EXTRA-NOTE race detector: %d cases over facets %s at GOMAXPROCS 2/4/16, no report" % (total, ",".join(f for f, _ in plan)))
